@@ -186,6 +186,7 @@ type FX struct {
 	constArrs map[string]string
 	cwSeen   map[*ssa.Function]bool
 	known    map[string]bool
+	oblAssumes map[int]bool
 }
 
 func (e *Engine) newFX(fn *ssa.Function, spec *FuncSpec) *FX {
@@ -295,8 +296,15 @@ func (fx *FX) now(st *State) string { return fx.sv(st, "$now", SInt) }
 func (fx *FX) alloc(st *State, hint string) string {
 	r := fx.ctx.Fresh("new!"+hint, SRef)
 	now := fx.now(st)
-	fx.ctx.Assert(And(Not(Eq(r, "null")), Eq(App("epoch", r), now), Eq(App("sub.base", r), r)))
+	fx.ctx.Assert(And(Not(Eq(r, "null")), Eq(App("epoch", r), now), Eq(App("sub.base", r), r), Eq(App("root", r), r)))
+	// allocation is unique: everything with this allocation time is (part of) this object
+	fx.ctx.Assert(fmt.Sprintf("(forall ((o Ref)) (! (=> (= (epoch o) %s) (= (root o) %s)) :pattern ((epoch o))))", now, r))
 	fx.setSV(st, "$now", SInt, fmt.Sprintf("(+ %s 1)", now))
+	if fx.lockMode {
+		// a freshly allocated object's locks are not held by anybody
+		h := fx.sv(st, "held", ArrS(SRef, SInt))
+		fx.ctx.Assert(fmt.Sprintf("(forall ((o Ref)) (! (=> (= (root o) %s) (= (select %s o) 0)) :pattern ((select %s o))))", r, h, h))
+	}
 	return r
 }
 
@@ -318,7 +326,14 @@ func (fx *FX) addObl(kind, name, guard, goal string, pos token.Pos, note string)
 		o.Verdict, o.Solver = "proved", "syntactic(identical to an assumed fact)"
 	}
 	fx.obls = append(fx.obls, o)
+	if fx.oblAssumes == nil {
+		fx.oblAssumes = map[int]bool{}
+	}
+	before := len(fx.ctx.asserts)
 	fx.ctx.Assert(Imp(guard, goal))
+	if len(fx.ctx.asserts) > before {
+		fx.oblAssumes[before] = true
+	}
 	return o
 }
 
